@@ -24,6 +24,10 @@ fn main() {
         }
         return;
     }
+    if args[0] == "--worker" {
+        yqv::worker::worker_main(yqv::props::factoring::handle_job);
+        return;
+    }
     if args[0] == "--selftest" {
         match yqv::oracle::int::self_test() {
             Ok(()) => println!("oracle kit self-test ok"),
